@@ -166,6 +166,19 @@ CLAIMED["C15"] = (
     "DESIGN.md 3 C15",
 )
 
+CLAIMED["C16"] = (
+    XH + "; the real rdump.main and record_stream run with stand-in reader/writer, skip/count and the selector's outcome vector symbolic; "
+    "option sets and fault placements enumerated by the driver",
+    "For every placement of clean / failing / unopenable sources over two sources (three: seeded quick, all thorough), every option set of the table (-F x -X x metadata overrides x "
+    "--multi-timestamp over an input with two descriptors of one name), list mode and five real selector texts in both engines, the records handed to the writer equal the reference "
+    "pipeline (filter, then slice, then overrides, projection, expansion) for ALL skip/count in [0, N+2], all selector outcome vectors and all integer carrier values, and the writer is "
+    "released exactly once. The writer-URI table and an end-to-end battery over real files, compressions and output modes are concrete side conditions and reported as such.",
+    "Trusted: the reference pipeline in harness/C16.py; stand-ins: reader (prepared records, then the fault), writer (collects), islice (generator model), argparse run untraced on the "
+    "concrete argv. Outside: real sources and writers (own properties), negative skip/count, -E. Known finding K4 (projection applied again by csv/text/line writers after "
+    "--multi-timestamp) is listed in known_findings.json.",
+    "DESIGN.md 3 C16",
+)
+
 NOT_APPLICABLE = {
     "C13": "every operation the property constrains (datetime construction/arithmetic, fromisoformat, zoneinfo, fastavro/sqlite3 conversions) is C code; "
     "CrossHair realises each datetime component at the C constructor and the repo-side logic is two value-free ifs, so no value-level case would be decided by the solver (DESIGN.md 6)",
